@@ -27,6 +27,10 @@ var c01Cases = []vCase{
 	{name: "head-three-prefix-exact", prog: "t3([A, B, C|T], A, B, C, T).", query: "t3([k0, k1, k2], X, Y, Z, T), T = []."},
 	{name: "head-prefix-vs-longer-shorter", prog: "h2([A, B|T], A-B-T).", query: "( L = [k0] ; L = [k0, k1] ; L = [k0, k1, k2] ; L = [k0, k1|_] ; L = \"ab\" ), h2(L, R)."},
 	{name: "head-string-literal", prog: "kw(\"ab\", yes). kw([k0|_], maybe).", query: "( L = [a, b] ; L = [a|T] ; L = \"ab\" ; L = [k1, b] ), kw(L, R)."},
+	{name: "underscore-named-variable-shared", prog: "par(k0, k1). par(k1, k2). par(k0, k3). gr(X, Z) :- par(X, _Y), par(_Y, Z).", query: "gr(k0, Z)."},
+	{name: "underscore-named-variable-head", prog: "same(_X, _X). two(_, _).", query: "same(k0, Y), two(k0, k1), \\+ same(k0, k4)."},
+	{name: "underscore-named-variable-query", prog: "par(k0, k1). par(k1, k2). par(k0, k3).", query: "par(k0, _C), par(_C, G)."},
+	{name: "variable-name-forms", prog: "v(_1, _1, __, __, X1, X1, Xy_z, Xy_z). w(_, _).", query: "v(k0, A, k1, B, k2, C, k3, D), w(k0, k1)."},
 	{name: "partial-list-arg", prog: "p([k0|T], T). p([k1, k2|T], T).", query: "p([A|B], [k3])."},
 	{name: "mutual-recursion", prog: "ev(z). ev(s(X)) :- od(X). od(s(X)) :- ev(X).", query: "ev(s(s(z))), od(s(z))."},
 	{name: "nat-gen", prog: "n(z). n(s(X)) :- n(X).", query: "n(X).", max: 4},
